@@ -378,6 +378,9 @@ class SgzConverter(SgzReader):
                                 buffer[u*self.chunk_bytes + z*self.unit_bytes:
                                        u*self.chunk_bytes + (z+1)*self.unit_bytes]
                         outfile.write(new_block)
+            if not self.structured and self.include_padding is False:
+                # Header arrays were last loaded without padding (e.g. by gen_trace_header), start afresh
+                self.clear_variant_headers()
             self.read_variant_headers(include_padding=True)
             written_offsets = set()
             for k in self.stored_header_keys:
